@@ -348,7 +348,7 @@ func (in *Interp) AddLanguageStatics() {
 		if err != nil {
 			return nil, err
 		}
-		if mm, ok := a[0].(*Map); ok && mm.Unordered && len(mm.Keys) > 1 {
+		if DeepUnordered(a[0]) {
 			in.OrderLeak = true
 		}
 		return Str(t), nil
